@@ -106,9 +106,10 @@ Proof. exact ex_dag_ok. Qed.
    are reproduced.  (In the model no output object is an input object by
    construction; on the code the harness checks identity of every output
    container against the input's.)
-   _partial: stated for graphs without set/frozenset nodes - a rebuilt set holds
-   its members in canonical order, so for sets the item-by-item statement holds
-   up to the order of members only (checked on the code by `holds`, not proved). *)
+   For set/frozenset nodes the members correspond as a permutation ([same_items]).
+   _partial: sets are required to be flat ([no_sets]: their members are pairwise
+   unequal leaves); sets of tuples/frozensets are checked on the code by `holds`,
+   not proved. *)
 Theorem C08_default_copy_partial : forall reraise id k items,
   let root := ONode id k items in
   NoDup (ids root) -> wf_keys root -> no_sets root -> imm_backref [] root = false ->
@@ -116,12 +117,12 @@ Theorem C08_default_copy_partial : forall reraise id k items,
     remap None reraise (collect_defs root) root = Done v m lg
     /\ oref_of v = RObj id /\ t_get m id = Some v
     /\ forall j kj itemsj, In (j, ONode j kj itemsj) (collect_defs root) ->
-         exists items', t_get m j = Some (ONode j kj items') /\ shal items' = shal itemsj.
+         exists items', t_get m j = Some (ONode j kj items') /\ same_items kj items' itemsj.
 Proof. exact machine_default_copy. Qed.
 Print Assumptions C08_default_copy_partial.
 
 Example C08_default_copy_inhabited :
-  NoDup (ids ex_cyclic) /\ wf_keys ex_cyclic /\ no_sets ex_cyclic /\ imm_backref [] ex_cyclic = false.
+  NoDup (ids ex_copy) /\ wf_keys ex_copy /\ no_sets ex_copy /\ imm_backref [] ex_copy = false.
 Proof. exact ex_copy_ok. Qed.
 
 (* every (path, value) research reports for a nested item is retrievable with
